@@ -3,7 +3,7 @@ from . import core
 
 ASSUME = [
     "POSIX path semantics (no volume names); the recording afero.Fs underneath ChrootFs sees every call made on behalf of a specification",
-    "segment alphabet {'', '.', '..', 'a', 'b.c', 'd e'}; names up to the stated length, 4 roots of depth 0..3, each name spelled relative and absolute",
+    "segment alphabet {'', '.', '..', 'a', 'b.c', 'd e', 'ab', '..a'} ('ab' continues the root name 'a' as a string, '..a' is an ordinary name that begins with two dots); names up to the stated length, 4 roots of depth 0..3, each name spelled relative and absolute",
     "module driver: the module named on the command line (loader.LoadSyslModule with a root), spelled like the imports and ending in `mod`, `mod.sysl` or `mod.v2`; "
     "the recording file system sits below the loader, so calls made before the loader confines itself to the root are seen too",
     "import driver: one importing file in <root>/p, names containing spaces are not valid import paths and are skipped there; "
